@@ -64,7 +64,8 @@ pub fn plan_parts(prop: &str, tier: Tier) -> (u64, u64, u64) {
         "C11" => (scale(60_000, 2_000_000), 0, 0),
         "C12" => (scale(400_000, 30_000_000), 0, 0),
         "C13" => (scale(400_000, 30_000_000), 0, 0),
-        "C18" => (scale(400, 4_000), 0, 0),
+        // (scenarios with a concurrent phase, purity-only scenarios, -)
+        "C18" => (scale(400, 4_000), scale(3_000, 60_000), 0),
         _ => (0, 0, 0),
     }
 }
@@ -101,7 +102,14 @@ pub fn gen(prop: &str, seed: u64, tier: Tier, r: u64) -> Case {
         "C11" => Case::Ser(ser::gen_case(rs, tier)),
         "C12" => Case::Iter(iters::gen_case(rs, tier)),
         "C13" => Case::Qvb(qvb::gen_case(rs, tier)),
-        "C18" => Case::Thr(thr::gen_case(rs, tier)),
+        "C18" => {
+            let (full, _seq, _) = plan_parts(prop, tier);
+            if r < full {
+                Case::Thr(thr::gen_case(rs, tier))
+            } else {
+                Case::Thr(thr::gen_seq_case(rs, tier))
+            }
+        }
         _ => panic!("harness bug: unknown property {prop}"),
     }
 }
@@ -179,7 +187,7 @@ pub fn rule(prop: &str) -> &'static str {
         "C11" => "one case = one value of one of the 19 serializable public types (trees under seeded enumeration orders, bit/quad structures incl. bit strings shaped after the select inventories, Default values; half of the values serialized right after another, larger value of the same type on the same thread) x one of 5 bincode configurations x a transport: fault-free in-memory (40%) or the simulated disk with an explicit fault script keyed by byte offset (short writes/reads, EINTR, optional BufWriter/BufReader of random capacity, sync, crash after sync; in 30% of faulty runs also hard errors, crash before sync, early EOF, which are informational only). Obligations when owed: success, ==, byte-identical re-serialization, 60 queries answered identically. distinct = distinct (type, configuration, fault-kind set, transport knobs, size class); non-trivial = non-empty value",
         "C12" => "one case = a container (10 tree aliases under seeded enumeration orders, BitVector, BitVectorMut, DArray, QVector, RSQVector; 0..600 elements, sparse bit containers of 513..3300 bits, and Default-constructed values of every type), one of its iterators (iter, (&x).into_iter, into_iter, ones/zeros[_with_pos] with start positions at word/line boundaries, inside and past the end) and a history of up to 2n+12 calls over the methods that iterator has {next, next_back, len, size_hint, nth, nth_back} optionally ended by fold / count / last on the rest; a VecDeque model is compared after every call, including after exhaustion; a panic while obtaining the iterator is a violation; terminal calls also rfold / min_by_key / max_by_key; containers in four incarnations (built, reloaded, clone, clone_from) and bit vectors grown by a history. distinct = distinct (iterator type, iterator kind, size class, first 24 calls, length class); non-trivial = >= 2 elements and >= 3 calls",
         "C13" => "one case = QVectorBuilder::new / with_capacity / collect, then up to 30 operations from push(any u8), extend(vector of one of the 12 integer types, any bit pattern), clone-and-continue, snapshot (clone().build() compared with the model), finally build(); or QVector::from_iter directly; the source iterators of collect/extend report exact or legal-but-unhelpful size hints ((0,None), (0,Some(usize::MAX)), (<=1,Some(2^62)), (0,Some(2^63+5))); builders also Default / clone_from / extend from faulty sources (end early, panic after j values); every built vector is observed through len/is_empty/get (incl. far out-of-range indices), iter/into_iter collect and fold on partly consumed iterators, skip(k)/step_by(k)/nth(k). Model = Vec<u8> of the two low bits. distinct = distinct (operation-kind sequence, length mod 256, lines); non-trivial = >= 2 symbols",
-        "C18" => "one scenario = one immutable structure (19 types; as built, reloaded, clone or clone_from; one in ten a *Pfs tree with non-trivial prefetch samples queried through rank_prefetch) with a batch of 30..90 queries: sequential purity (answers repeated and in another order, serialized bytes before/after), then 2..4 simulated threads each issuing an overlapping two-thirds slice of the batch on the shared reference under seeded random or PCT schedules with scheduling points between queries and at the H4 points inside query loops; every answer is asserted against the single-thread answer; plus Miri executions (real threads, interpreter-seeded pre-emption at any basic block, data-race detection) of the scenarios c18all / c18big / c18quad. evaluations counts scenarios; distinct = distinct schedules (hash of the sequence of scheduling choices); non-trivial = non-empty structure",
+        "C18" => "one scenario = one immutable structure (19 types; as built, reloaded, clone or clone_from; one in ten a *Pfs tree with non-trivial prefetch samples queried through rank_prefetch) with a batch of 30..90 queries: sequential purity (answers repeated and in another order, serialized bytes before/after), then 2..4 simulated threads each issuing an overlapping two-thirds slice of the batch on the shared reference under seeded random or PCT schedules with scheduling points between queries and at the H4 points inside query loops; every answer is asserted against the single-thread answer; plus Miri executions (real threads, interpreter-seeded pre-emption at any basic block, data-race detection) of the scenarios c18all / c18big / c18quad. in addition 3000 (quick) / 60000 (thorough) purity-only scenarios without a concurrent phase: larger structures (1 in 12 beyond 65 536 elements), 120..400 queries including data-aware ones (the occurrence right after every run boundary, first and last occurrence). evaluations counts scenarios; distinct = distinct schedules (hash of the sequence of scheduling choices); non-trivial = non-empty structure",
         _ => "",
     }
 }
